@@ -261,6 +261,9 @@ def run(chk):
     fr_ = md.defs.get('calc_tidal_susceptibility_reduced')
     if isinstance(fr_, ast.FunctionDef):
         eq('R10.6', 'calc_tidal_susceptibility_reduced * a^-6 == calc_tidal_susceptibility', it.call(md, fr_, [M, R]) / a ** 6, it.call(md, fs, [M, R, a]), md.where(fr_))
+    from .common import inplace_lint
+    inplace_lint(chk, repo, 'R10.7', ['TidalPy/tides/modes/mode_manipulation.py', 'TidalPy/tides/dissipation.py', 'TidalPy/tides/love1d.py', 'TidalPy/toolbox/quick_tides.py'])
+    chk.floor('R10.7', 4)
     chk.floor('R10.1', len(configs) * 2); chk.floor('R10.2', len(configs) * 2 * 2); chk.floor('R10.3', len(configs) * 2)
     chk.floor('R10.4', len(configs)); chk.floor('R10.5', 1); chk.floor('R10.6', 100)
     chk.assume('n, a, R, e > 0; sign(w) w = |w|; compliances arbitrary complex per unique frequency')
